@@ -23,7 +23,7 @@ def plain(job, rng, home):
 def faults(job, rng, home):
     """Message duplication / delay, arbitrary outcomes."""
     w = gen.generate(rng, features=job.get("features"))
-    outcome = gen.make_outcome(w, rng, job.get("mode", "any"))
+    outcome = gen.make_outcome(w, rng, job.get("mode", "any"), ghosts=True)
     pol = dict(p_dup=0.3, p_env=0.6, reorder=True, late_submit_callback=True)
     pol.update(job.get("policy") or {})
     res = driver.execute(w.flow_text(), outcome, rng.randrange(1 << 30), home, policy=pol)
